@@ -271,7 +271,7 @@ def is_const(fn, pred=None):
 
 
 def is_local(fn, d):
-    return lambda j: fn.nodes[j]["k"] == "DeclRefExpr" and fn.nodes[j]["d"] == d
+    return lambda j: fn.nodes[j]["k"] == "DeclRefExpr" and d is not None and (fn.nodes[j]["d"] == d or fn.alias_root(fn.nodes[j]["d"]) == fn.alias_root(d))
 
 
 def fact_nonnull(fn, e, pol, is_x):
@@ -298,7 +298,7 @@ def fact_null(fn, e, pol, is_x):
 
 
 def is_var(fn, d):
-    return lambda j: fn.nodes[j]["k"] == "DeclRefExpr" and fn.nodes[j]["d"] == d
+    return lambda j: fn.nodes[j]["k"] == "DeclRefExpr" and d is not None and (fn.nodes[j]["d"] == d or fn.alias_root(fn.nodes[j]["d"]) == fn.alias_root(d))
 
 
 def is_field(fn, fld, base_d=None):
@@ -522,7 +522,7 @@ def var_of(fn, i):
     j = fn.strip(i)
     n = fn.nodes[j]
     if n["k"] == "DeclRefExpr" and n["dk"] in ("local", "parm"):
-        return n["d"]
+        return fn.alias_root(n["d"])
     return None
 
 
